@@ -15,6 +15,8 @@ pub struct SimCfg {
     pub late_ack: bool,
     pub prefixes: bool,
     pub max_conns_per_pair: usize,
+    /// multi-hop chain: nodes in a line, only the last one holds blocks, the others query
+    pub chain: bool,
 }
 
 pub struct RunResult {
@@ -253,9 +255,14 @@ pub fn run_one(seed: u64, cfg: &SimCfg) -> RunResult {
     // initial contents
     for k in 0..cfg.keys {
         for i in 0..n {
-            if rng.chance(1, 3) {
+            if (cfg.chain && i == n - 1) || (!cfg.chain && rng.chance(1, 3)) {
                 sim.nodes[i].content.insert(k, k * 100);
             }
+        }
+    }
+    if cfg.chain {
+        for i in 0..n - 1 {
+            sim.dial(i, i + 1);
         }
     }
     let mut budget: u64 = 200_000;
@@ -269,7 +276,7 @@ pub fn run_one(seed: u64, cfg: &SimCfg) -> RunResult {
         if rng.chance(1, 3) {
             actions -= 1;
             match rng.below(100) {
-                0..=19 => {
+                0..=19 if !cfg.chain => {
                     let a = rng.below(n);
                     let b = rng.below(n);
                     let key = (a.min(b), a.max(b));
@@ -279,8 +286,9 @@ pub fn run_one(seed: u64, cfg: &SimCfg) -> RunResult {
                         count("sim.dial");
                     }
                 }
-                20..=49 => {
-                    let a = rng.below(n);
+                0..=49 => {
+                    // in a chain the querying nodes are all but the last
+                    let a = if cfg.chain { rng.below(n - 1) } else { rng.below(n) };
                     let k = rng.below(cfg.keys as usize) as u64;
                     sim.poll_swarm(a);
                     let q = sim.nodes[a].swarm.behaviour_mut().user_get(k, true);
